@@ -4,7 +4,7 @@
           relationship type);
    valid = accepted by the constructors (meaning <= 64, graphic-data rules). *)
 From Coq Require Import String ZArith List Bool QArith.
-From HD Require Import Base.Val C13_Model C13_Proofs.
+From HD Require Import Base.Val C13_Model C13_Proofs C13_Proofs_Seq.
 Import ListNotations.
 Open Scope string_scope.
 Open Scope list_scope.
@@ -280,3 +280,227 @@ Example C13_table_row_needed :
     [("ValueType", DStr "WAVEFORM")] = Err "KeyError".
 Proof. vm_compute. split; reflexivity. Qed.
 Print Assumptions C13_table_row_needed.
+
+(* ================================================================== *)
+(* two-phase parsing: X.from_dataset / from_sequence check the whole tree
+   first, the accessors are read afterwards.  parse2 has the error precedence
+   of the code for any number of faults; it succeeds exactly when parse does,
+   with the same item, and fails exactly when parse fails *)
+Theorem C13_parse_two_phase : forall c d t, parse c d = Ok t <-> parse2 c d = Ok t.
+Proof. exact parse_two_phase. Qed.
+Print Assumptions C13_parse_two_phase.
+
+Theorem C13_parse_two_phase_err : forall c d,
+  (exists e, parse c d = Err e) <-> (exists e, parse2 c d = Err e).
+Proof. exact parse_two_phase_err. Qed.
+Print Assumptions C13_parse_two_phase_err.
+
+Theorem C13_parse2_error_is_from_dataset_error : forall c d e,
+  accept c d = Err e -> parse2 c d = Err e.
+Proof. exact parse2_accept_err. Qed.
+Print Assumptions C13_parse2_error_is_from_dataset_error.
+
+Theorem C13_from_sequence_two_phase : forall items ks,
+  from_sequence items = Ok ks <-> from_sequence2 items = Ok ks.
+Proof. exact from_sequence_two_phase. Qed.
+Print Assumptions C13_from_sequence_two_phase.
+
+(* X.from_dataset accepts EXACTLY: asserted value type, every required
+   attribute, complete concept name (or none where optional), acceptable
+   children with valid relationship types, complete coded concepts in the value *)
+Theorem C13_from_dataset_accepts_iff : forall c a,
+  accept (Some c) (DSet a) = Ok tt <->
+  (lookup "ValueType" a = Some (DStr (vt_str (class_vt c))) /\
+   (forall k, In k (required c) -> lookup k a <> None) /\
+   match lookup "ConceptNameCodeSequence" a with
+   | Some s => exists n, code_first s = Ok n
+   | None => mem (ctag_str c) optional_name_classes = true
+   end /\
+   match lookup "ContentSequence" a with
+   | None => True
+   | Some (DSeq items) => Forall (fun d => accept None d = Ok tt) items /\
+                          Forall (fun d => rel_present d = Ok tt) items
+   | Some _ => False
+   end /\
+   value_codes c a = Ok tt).
+Proof. exact from_dataset_accepts_iff. Qed.
+Print Assumptions C13_from_dataset_accepts_iff.
+
+(* ---- the three kinds of content sequence (is_root, is_sr) ---- *)
+Theorem C13_sequence_kind_rule : forall m r c,
+  (mode_rule m r c = Ok tt <->
+   match m with
+   | MRoot => r = None /\ c = ContainerContentItem
+   | MSr => r <> None
+   | MCtx => r = None
+   end) /\
+  (mode_rule m r c = Ok tt \/ mode_rule m r c = Err "AttributeError" \/ mode_rule m r c = Err "TypeError") /\
+  (mode_rule m r c = Err "TypeError" <-> (m = MRoot /\ r = None /\ c <> ContainerContentItem)).
+Proof. exact mode_rule_spec. Qed.
+Print Assumptions C13_sequence_kind_rule.
+
+Theorem C13_content_sequence_new : forall m items s,
+  seq_new m items = Ok s <-> (s = CSeq m items items /\ Forall (ok_in m) items).
+Proof. exact seq_new_spec. Qed.
+Print Assumptions C13_content_sequence_new.
+
+Theorem C13_content_sequence_rejects_first : forall m pre x post e,
+  Forall (ok_in m) pre -> check_item m x = Err e -> seq_new m (pre ++ x :: post) = Err e.
+Proof. exact seq_new_rejects. Qed.
+Print Assumptions C13_content_sequence_rejects_first.
+
+Theorem C13_from_sequence_kinds_roundtrip : forall m l,
+  Forall wf l -> Forall (ok_in m) l -> from_sequence_m m (map to_ds l) = Ok l.
+Proof. exact from_sequence_m_roundtrip. Qed.
+Print Assumptions C13_from_sequence_kinds_roundtrip.
+
+Theorem C13_from_sequence_kinds_accepts_only : forall m ds ks,
+  from_sequence_m m ds = Ok ks -> Forall (ok_in m) ks /\ List.length ks = List.length ds.
+Proof. exact from_sequence_m_accepts_only. Qed.
+Print Assumptions C13_from_sequence_kinds_accepts_only.
+
+Theorem C13_from_sequence_default_kind : forall items ks,
+  from_sequence_m MSr items = Ok ks <-> from_sequence2 items = Ok ks.
+Proof. exact from_sequence_m_default. Qed.
+Print Assumptions C13_from_sequence_default_kind.
+
+(* ---- ContentSequence as a mutable container ---- *)
+(* Dataset equality of items = equality of all observations, code meanings apart *)
+Theorem C13_item_equality : forall a b, item_eqb a b = true <-> key_obs a = key_obs b.
+Proof. exact item_eqb_true. Qed.
+Print Assumptions C13_item_equality.
+
+(* every call keeps the invariant (look-up table = the items, as multisets;
+   every item suits the kind of sequence), keeps the kind, and never fails in
+   the look-up table *)
+Theorem C13_sequence_step_invariant : forall s o, Inv s ->
+  Inv (fst (seq_step s o)) /\ q_mode (fst (seq_step s o)) = q_mode s /\
+  snd (seq_step s o) <> Err "ValueError".
+Proof. exact seq_step_inv. Qed.
+Print Assumptions C13_sequence_step_invariant.
+
+(* every reachable state satisfies the invariant *)
+Theorem C13_sequence_reachable : forall is_root is_sr init ops m s0,
+  mode_of is_root is_sr = Ok m -> seq_new m init = Ok s0 ->
+  let s := fst (seq_run s0 ops) in
+  Inv s /\ q_mode s = m /\ Forall (fun r => r <> Err "ValueError") (snd (seq_run s0 ops)).
+Proof. exact seq_reachable. Qed.
+Print Assumptions C13_sequence_reachable.
+
+Theorem C13_sequence_items_suit_kind : forall s, Inv s ->
+  Forall (fun i => match q_mode s with
+                   | MRoot => i_rel i = None /\ i_cls i = ContainerContentItem
+                   | MSr => i_rel i <> None
+                   | MCtx => i_rel i = None
+                   end) (q_items s).
+Proof. exact inv_items. Qed.
+Print Assumptions C13_sequence_items_suit_kind.
+
+(* find(name) returns exactly the items of the sequence with that name *)
+Theorem C13_find_returns_named : forall s n, Inv s ->
+  seq_find s n = Ok (filter (named n) (q_log s)) /\
+  PermK (filter (named n) (q_log s)) (filter (named n) (q_items s)) /\
+  Forall (ok_in (q_mode s)) (filter (named n) (q_log s)).
+Proof. exact seq_find_spec. Qed.
+Print Assumptions C13_find_returns_named.
+
+Theorem C13_find_fresh : forall m items s n, seq_new m items = Ok s ->
+  seq_find s n = Ok (filter (named n) items).
+Proof. exact seq_find_fresh. Qed.
+Print Assumptions C13_find_fresh.
+
+Theorem C13_get_nodes : forall s, Inv s -> seq_nodes s = Ok (filter has_kids (q_items s)).
+Proof. exact seq_nodes_spec. Qed.
+Print Assumptions C13_get_nodes.
+
+Theorem C13_index_contains : forall s v, Inv s ->
+  seq_contains s v = existsb (item_eqb v) (q_items s) /\
+  (forall k, seq_index s v = Ok k ->
+     0 <= k < len (q_items s) /\
+     (exists x, nth_error (q_items s) (Z.to_nat k) = Some x /\ item_eqb v x = true) /\
+     (forall j x, (j < Z.to_nat k)%nat -> nth_error (q_items s) j = Some x -> item_eqb v x = false)) /\
+  (existsb (item_eqb v) (q_items s) = false -> seq_index s v = Err "ValueError").
+Proof. exact seq_index_spec. Qed.
+Print Assumptions C13_index_contains.
+
+(* ---- the property sentence in one statement ---- *)
+Theorem C13_end_to_end : forall t, wf t -> valid t ->
+  construct t = Ok t /\
+  (read_value (i_cls t) (to_attrs t) = Ok (i_value t) /\
+   read_rel (to_attrs t) = Ok (i_rel t) /\
+   bind (get "ConceptNameCodeSequence" (to_attrs t)) code_first = Ok (i_name t)) /\
+  parse (Some (i_cls t)) (to_ds t) = Ok t /\
+  parse2 (Some (i_cls t)) (to_ds t) = Ok t /\
+  (forall m, ok_in m t -> from_sequence_m m [to_ds t] = Ok [t]) /\
+  (i_rel t <> None -> from_sequence [to_ds t] = Ok [t] /\ from_sequence2 [to_ds t] = Ok [t]).
+Proof. exact end_to_end. Qed.
+Print Assumptions C13_end_to_end.
+
+(* ---- sr/content.py template content items (ImageRegion, FindingSite, ...):
+   their from_dataset now asserts the value type of the parent class
+   (asserts = true, read off the source on every run).  The assertion matters:
+   without it (defect D103 found by this check, fixed in /repo) from_dataset
+   accepted a dataset of another value type lacking a required attribute, where
+   the parent class answers ValueError ---- *)
+Theorem C13_subclass_assertion_needed : exists parent a,
+  accept_sub false parent (DSet a) = Ok tt /\
+  lookup "ValueType" a <> Some (DStr (vt_str (class_vt parent))) /\
+  (exists k, In k (required parent) /\ lookup k a = None) /\
+  accept (Some parent) (DSet a) = Err "ValueError".
+Proof. exact subclass_from_dataset_refuted. Qed.
+Print Assumptions C13_subclass_assertion_needed.
+
+(* with the value-type assertion the rejection clause holds *)
+Theorem C13_subclass_from_dataset_asserting : forall parent a,
+  accept_sub true parent (DSet a) = Ok tt ->
+  lookup "ValueType" a = Some (DStr (vt_str (class_vt parent))) /\
+  (forall k, In k (required parent) -> lookup k a <> None) /\
+  lookup "ConceptNameCodeSequence" a <> None.
+Proof. exact subclass_from_dataset_asserting. Qed.
+Print Assumptions C13_subclass_from_dataset_asserting.
+
+Theorem C13_subclass_from_dataset_checks : forall b parent a,
+  accept_sub b parent (DSet a) = Ok tt ->
+  lookup "ValueType" a <> None /\
+  exists s n, lookup "ConceptNameCodeSequence" a = Some s /\ code_first s = Ok n.
+Proof. exact subclass_from_dataset_checks. Qed.
+Print Assumptions C13_subclass_from_dataset_checks.
+
+(* ---- non-vacuity of the new statements ---- *)
+(* two faults: a bad enumerated value in the first child (accessor time) and a
+   missing required attribute in the second (from_dataset time): the code - and
+   parse2 - answer AttributeError; reading child by child would say ValueError *)
+Definition ex_two_faults : dval :=
+  DSet [("ValueType", DStr "CONTAINER"); ("ConceptNameCodeSequence", DSeq [code_ds ex_code]);
+        ("ContinuityOfContent", DStr "SEPARATE");
+        ("ContentSequence", DSeq [
+           DSet [("ValueType", DStr "SCOORD"); ("ConceptNameCodeSequence", DSeq [code_ds ex_code]);
+                 ("RelationshipType", DStr "CONTAINS"); ("GraphicType", DStr "BLOB");
+                 ("GraphicData", DNums [1%Q; 2%Q])];
+           DSet [("ValueType", DStr "TEXT"); ("ConceptNameCodeSequence", DSeq [code_ds ex_code]);
+                 ("RelationshipType", DStr "CONTAINS")]])].
+
+Example C13_two_faults_precedence :
+  parse2 (Some ContainerContentItem) ex_two_faults = Err "AttributeError" /\
+  parse (Some ContainerContentItem) ex_two_faults = Err "ValueError".
+Proof. vm_compute. split; reflexivity. Qed.
+Print Assumptions C13_two_faults_precedence.
+
+Definition ex_txt (nm s : string) : item :=
+  Item TextContentItem (Code nm "99X" "m" None) (Some CONTAINS) (VText s) [].
+
+(* a sequence after append / insert / replace / delete: find and index *)
+Example C13_sequence_nonvacuous :
+  exists s0, seq_new MSr [ex_txt "a" "1"; ex_txt "b" "2"] = Ok s0 /\
+  let s := fst (seq_run s0 [OAppend (ex_txt "a" "3"); OInsert 0 (ex_txt "b" "0"); OSet 1 (ex_txt "z" "9");
+                            ODel (-1); OAppend (Item TextContentItem ex_code None (VText "x") [])]) in
+  q_items s = [ex_txt "b" "0"; ex_txt "z" "9"; ex_txt "b" "2"] /\
+  seq_find s (Code "b" "99X" "another meaning" None) = Ok [ex_txt "b" "2"; ex_txt "b" "0"] /\
+  seq_index s (ex_txt "b" "2") = Ok 2 /\ seq_contains s (ex_txt "a" "1") = false /\
+  snd (seq_run s0 [OAppend (Item TextContentItem ex_code None (VText "x") [])]) = [Err "AttributeError"] /\
+  seq_new MRoot [ex_txt "a" "1"] = Err "AttributeError" /\
+  from_sequence_m MCtx [to_ds (Item TextContentItem ex_code None (VText "x") [])]
+    = Ok [Item TextContentItem ex_code None (VText "x") []] /\
+  from_sequence_m MCtx [to_ds (ex_txt "a" "1")] = Err "AttributeError".
+Proof. eexists. split; [reflexivity|]. vm_compute. repeat split; reflexivity. Qed.
+Print Assumptions C13_sequence_nonvacuous.
